@@ -673,8 +673,14 @@ class CSSSerializer(object):
     def do_CSSPageRuleSelector(self, seq):
         "Serialize selector of a CSSPageRule"
         out = Out(self)
+        named = False
         for item in seq:
             if item.type == 'IDENT':
+                out.append(item.value, item.type, space=False)
+                named = True
+            elif named:
+                # no space after the page name: "name/*c*/ :first" would
+                # not be a page selector anymore
                 out.append(item.value, item.type, space=False)
             else:
                 out.append(item.value, item.type)
